@@ -4,6 +4,7 @@ import IbModel.Proofs.VecSplit
 import IbModel.Props.C04
 import IbModel.Props.C05
 import IbModel.Model.Closures
+import IbModel.Proofs.ProgramBuilt
 /-!
 # C01 — sequential and parallel execution return the same result
 
@@ -57,29 +58,10 @@ end IB
 namespace IB
 open Val
 
-/-- nodes a sub-plan (join side) may contain, with the facts the contracts need -/
-inductive SubBuilt : Node Part → Prop
-  /-- a fused or unfused block of partition-homomorphic operators (map, filter, flat_map, key_by,
-      map_values, filter_values always; batch maps with an element-wise chunk function — `Props/C02`) -/
-  | stateless (ops : List (DynOp Part))
-      (h : ∀ op ∈ ops, ∀ ps : List Part, op.apply ps.flatten = (ps.map op.apply).flatten) :
-      SubBuilt (.stateless ops)
-  | gbk : SubBuilt gbkNode
-  | combineValues (c : VCombiner) (R : Val → Val → Prop) (hc : LawfulCombiner c R) :
-      SubBuilt (combineValuesNode c)
-  | combineValuesLifted (c : VCombiner) (R : Val → Val → Prop) (hc : LawfulCombiner c R) :
-      SubBuilt (combineValuesLiftedNode c)
-  | combineGlobal (c : VCombiner) (R : Val → Val → Prop) (hc : LawfulCombiner c R) (fo : Option Nat) :
-      SubBuilt (combineGlobalNode c fo)
-  | combineGlobalLifted (c : VCombiner) (R : Val → Val → Prop) (hc : LawfulCombiner c R) (fo : Option Nat) :
-      SubBuilt (combineGlobalLiftedNode c fo)
-
-/-- nodes of a main chain: the above, or a join of two sub-plans over vector sources -/
-inductive Built : Node Part → Prop
-  | sub {nd : Node Part} (h : SubBuilt nd) : Built nd
-  | join (k : JoinKind) (xs ys : List Val) (l r : List (Node Part))
-      (hl : ∀ nd ∈ l, SubBuilt nd) (hr : ∀ nd ∈ r, SubBuilt nd) :
-      Built (joinNode k (vecSource xs :: l) (vecSource ys :: r))
+/-! `SubBuilt` (nodes a sub-plan / join side may contain: blocks of partition-homomorphic operators,
+    group_by_key, per-key and global combines with ANY lawful combiner) and `Built` (those, or a join of two
+    sub-plans over vector sources) are defined in `Proofs/ProgramBuilt.lean`, which also shows that the chains
+    of the program library consist of such nodes (last section of this file). -/
 
 theorem subBuilt_ok {nd : Node Part} (h : SubBuilt nd) : SubNodeOK List.flatten nd := by
   cases h with
@@ -183,5 +165,267 @@ example : ∀ nd ∈ ([ .stateless [mapValuesOp (fun v => .int (v.toInt + 1)), f
     show List.map _ ps.flatten = (ps.map (List.map _)).flatten
     rw [List.map_flatten]
   · exact .sub (.combineGlobal _ Eq lawful_sum (some 1))
+
+/-! ## Programs: the functions the correspondence driver runs
+
+`ibdriver` answers every `PIPE` request with `runSeq src steps`, `runPar src steps n` or
+`runLiteral src steps` (`Model/Program.lean`), where `steps : List Step` is a program of the named
+function library (`Fn`, `Pred`, `FlatFn`, `KeyFn`, `BatchFn`, `Comb`) — the same requests the harness runs
+through the real `collect_seq` / `collect_par`. The theorems of this section are about exactly these
+functions; `Proofs/ProgramBuilt.lean` shows that the chain `litChain src steps` consists of `Built` nodes.
+
+`stepsSupported steps` (decidable, `Proofs/ProgramBuilt.lean`) accepts every program with AT MOST ONE
+top-level join (at any position; its right-side program join-free) whose steps — including those of the
+join's right side — are any of the builder calls of `Step` EXCEPT
+* `map_batches` / `map_values_batches` with the slice-dependent chunk functions `BatchFn.rev`, `BatchFn.sumall`
+  (partition-dependent by the operator's documented per-partition semantics; `BatchFn.each f` is covered);
+* the `TopK` combiner (`Comb.topK k` in the four combine entry points, `top_k_per_key`): its model is lawful only
+  on well-formed values (`Val.enc`, hence the order `Val.le`, does not separate `cons 1 0` from `cons 1 nil`);
+  `SubNodeOK` quantifies over ALL partitions, so covering it needs an invariant-relative engine simulation
+  — not done here.
+Programs with two or more top-level joins (`stepsNested`: a join fed by a join) and programs whose one
+join has a right side containing a join (`stepsRightNested`) are covered separately: both engines reject
+them with `nestedCoGroup`, so parallel = sequential there too. -/
+
+/-- shape of the literal chain of a covered program: a vector source followed by `Built` nodes only
+    (the program's own source — or, after a join, the 1-element dummy source, the join node whose two
+    sides are vector sources followed by `SubBuilt` nodes, and the nodes of the later steps) -/
+theorem C01_litChain_built (src : List Val) (steps : List Step) (h : stepsSupported steps = true) :
+    ∃ xs rest, (xs = src ∨ vecSource xs = dummySource) ∧
+      litChain src steps = vecSource xs :: rest ∧ ∀ nd ∈ rest, Built nd :=
+  litChain_built src steps h
+
+/-- the precise form for a program with its one join: `Step.join` REPLACES the lineage by
+    `[dummy, joinNode k <left lineage> <right lineage>, map id]` -/
+theorem C01_litChain_one_join (src : List Val) (pre post : List Step) (k : JoinKind) (rsrc : List Val)
+    (rsteps : List Step) (hpre : pre.all Step.subSupported = true)
+    (hrs : rsteps.all Step.subSupported = true) (hpost : post.all Step.subSupported = true) :
+    ∃ l r p, litChain src (pre ++ Step.join k rsrc rsteps :: post)
+        = dummySource :: joinNode k (vecSource src :: l) (vecSource rsrc :: r) :: st (mapOp id) :: p ∧
+      (∀ nd ∈ l, SubBuilt nd) ∧ (∀ nd ∈ r, SubBuilt nd) ∧ (∀ nd ∈ p, SubBuilt nd) :=
+  litChain_one_join src pre post k rsrc rsteps hpre hrs hpost
+
+/-- **C01 for the programs the driver runs.** For every source vector, every covered program (any
+    mixture of element-wise steps, group_by_key, per-key / global combines with any fan-out, `distinct`,
+    `distinct_per_key`, side inputs, `try_map`, debug taps, one join at any position with a transformed
+    right side) and EVERY partition count `n`: `runPar src steps n = runSeq src steps` — the same rows in
+    the same (model) order, or the same error. -/
+theorem C01_program (src : List Val) (steps : List Step) (h : stepsSupported steps = true) (n : Nat) :
+    runPar src steps n = runSeq src steps := by
+  obtain ⟨xs, rest, _, hshape, hb⟩ := litChain_built src steps h
+  unfold runPar runSeq
+  rw [hshape]
+  exact C01_pipeline xs rest hb n
+
+/-- the same for the literal (un-planned) chain: the parallel engine on `litChain` returns what
+    `runLiteral` (the reference of C02/C03) returns -/
+theorem C01_program_literal (src : List Val) (steps : List Step) (h : stepsSupported steps = true)
+    (n : Nat) : execPar List.flatten (litChain src steps) n = runLiteral src steps := by
+  obtain ⟨xs, rest, _, hshape, hb⟩ := litChain_built src steps h
+  unfold runLiteral
+  rw [hshape]
+  exact C01_pipeline_literal xs rest hb n
+
+/-- nested joins, left: a program with two or more top-level joins (the later join's LEFT lineage
+    contains a join) is rejected with `nestedCoGroup` by both engines, planned and literal, for every
+    partition count — whatever its other steps are (NO support hypothesis) -/
+theorem C01_program_nested (src : List Val) (steps : List Step) (h : stepsNested steps = true) :
+    runSeq src steps = .error .nestedCoGroup ∧ (∀ n, runPar src steps n = .error .nestedCoGroup) ∧
+    runLiteral src steps = .error .nestedCoGroup ∧
+    (∀ n, execPar List.flatten (litChain src steps) n = .error .nestedCoGroup) := by
+  obtain ⟨h1, h2, h3, h4⟩ := nestedShape_rejected _ (litChain_nested src steps h)
+  exact ⟨h3, h4, h1, h2⟩
+
+/-- nested joins, right: one top-level join whose right-side program contains a join, after covered
+    steps (so that the left lineage runs), followed by arbitrary join-free steps: `nestedCoGroup` in both
+    modes -/
+theorem C01_program_right_nested (src : List Val) (steps : List Step) (h : stepsRightNested steps = true) :
+    runSeq src steps = .error .nestedCoGroup ∧ (∀ n, runPar src steps n = .error .nestedCoGroup) ∧
+    runLiteral src steps = .error .nestedCoGroup ∧
+    (∀ n, execPar List.flatten (litChain src steps) n = .error .nestedCoGroup) := by
+  obtain ⟨k, l, r, rest, hshape, hl, hr⟩ := litChain_rightNested src steps h
+  have hs : RightNestedShape (litChain src steps) :=
+    ⟨k, _, r, rest, hshape, ⟨fun n => vecSplit_flatten src n, fun nd hnd => subBuilt_ok (hl nd hnd)⟩, hr⟩
+  obtain ⟨h1, h2, h3, h4⟩ := rightNestedShape_rejected _ hs
+  exact ⟨h3, h4, h1, h2⟩
+
+/-- all three classes together: parallel = sequential for every partition count -/
+theorem C01_program_all (src : List Val) (steps : List Step)
+    (h : (stepsSupported steps || stepsNested steps || stepsRightNested steps) = true) (n : Nat) :
+    runPar src steps n = runSeq src steps := by
+  simp only [Bool.or_eq_true] at h
+  rcases h with (h | h) | h
+  · exact C01_program src steps h n
+  · obtain ⟨h1, h2, _, _⟩ := C01_program_nested src steps h
+    rw [h1, h2 n]
+  · obtain ⟨h1, h2, _, _⟩ := C01_program_right_nested src steps h
+    rw [h1, h2 n]
+
+/-! non-vacuity: programs of the harness corpora are covered (`decide` on literals = witnesses) -/
+
+/-- `c01.rs::corpus()`: fan-out 0 / 1 global combines, lifted combines, the reorder witness -/
+example : stepsSupported [.combineGlobally .sum (some 0)] = true := by decide
+example : stepsSupported [.combineGlobally .count (some 1)] = true := by decide
+example : stepsSupported [.combineGloballyLifted .maxT (some 2)] = true := by decide
+example : stepsSupported [.combineValuesLifted .sum] = true := by decide
+example : stepsSupported [.gbk, .combineValuesLifted .sum] = true := by decide
+example : stepsSupported [.mapValues (.add 1), .filterValues .even] = true := by decide
+/-- … its join program: a left join whose right side has a `map_values`, then a per-key combine -/
+example : stepsSupported
+    [.join .left [.pair (.int 1) (.int 7), .pair (.int 3) (.int 9)] [.mapValues .neg], .combineValues .sum]
+    = true := by decide
+/-- `c01.rs` exhaustive block / `c05.rs`: `gbk ; combine_values_lifted count`, `values ; global sum` -/
+example : stepsSupported [.gbk, .combineValuesLifted .count] = true := by decide
+example : stepsSupported [.values, .combineGlobally .sum (some 2)] = true := by decide
+example : stepsSupported [.gbk, .glen] = true := by decide
+/-- `c07.rs` corpus: an EMPTY source with a global combine, keyed, on either side of a join -/
+example : stepsSupported [.combineGlobally .sum none, .topair,
+    .join .full [.pair (.int 0) (.int 7), .pair (.int 1) (.int 8)] []] = true := by decide
+example : stepsSupported [.join .inner [] [.combineGlobally .sum none, .topair]] = true := by decide
+/-- a longer mixed program: element-wise batch step, side input, distinct_per_key, join with a grouped and
+    combined right side, downstream barrier and global combine with fan-out 1 -/
+example : stepsSupported
+    [.map (.add 1), .mapBatches 2 (.each (.mul 2)), .mapSide [1, -2], .keyBy (.kmod 3), .distinctPerKey,
+     .join .right [.int 1, .int 2, .int 3] [.keyBy (.kmod 2), .gbk, .combineValuesLifted .minT],
+     .unkey, .debugCount, .values, .combineGloballyLifted .count (some 1)] = true := by decide
+/-- NOT covered (the predicate is not trivially true): slice-dependent chunk functions, TopK -/
+example : stepsSupported [.mapBatches 2 .rev] = false := by decide
+example : stepsSupported [.values, .combineGlobally (.topK 2) (some 3)] = false := by decide
+example : stepsSupported [.topKPerKey 2] = false := by decide
+/-- `a.join(b).join(c)` is the nested class; a join whose right side is a join result the right-nested one -/
+example : stepsNested [.join .inner [] [], .mapValues .neg, .join .left [] []] = true := by decide
+example : stepsRightNested [.mapValues .neg, .join .left [] [.join .inner [] [], .unkey], .combineValues (.topK 1)]
+    = true := by decide
+
+/-- the theorem applied to the corpus join program: the concrete parallel result for EVERY `n` equals
+    the sequential one, which evaluates to the expected rows -/
+example (n : Nat) :
+    runPar [.pair (.int 1) (.int 1), .pair (.int 1) (.int 2), .pair (.int 2) (.int 5)]
+      [.join .left [.pair (.int 1) (.int 7), .pair (.int 3) (.int 9)] [.mapValues .neg], .combineValues .count] n
+    = runSeq [.pair (.int 1) (.int 1), .pair (.int 1) (.int 2), .pair (.int 2) (.int 5)]
+      [.join .left [.pair (.int 1) (.int 7), .pair (.int 3) (.int 9)] [.mapValues .neg], .combineValues .count] :=
+  C01_program _ _ (by decide) n
+
+/-! ## C05 / C04 at program level: a program followed by one barrier step
+
+The planner never looks across a `CombineGlobal`, an un-lifted `CombineValues` or a trailing `GroupByKey`
+node, and the sequential engine is a left fold. Hence, for EVERY program `pre` (joins, uncovered steps,
+failing programs included) and every combiner, the planned run of `pre ++ [step]` is the planned run of
+`pre` continued by that step's closures (`>>=` propagates an error of `pre` unchanged). With `C01_program`
+the same value is returned by `runPar` for every partition count when the program is covered. The
+per-key / global / grouping theorems of `Props/C05.lean`, `Props/C04.lean` then describe the result. -/
+
+/-- C05 (global): `pre ; combine_globally(c, fo)` returns EXACTLY ONE row, `finish (foldAdd create rows)` over
+    the rows `pre` returns, for every combiner (`TopK` included) and every fan-out setting -/
+theorem program_combineGlobally_value (src : List Val) (pre : List Step) (c : Comb) (fo : Option Nat) :
+    runSeq src (pre ++ [.combineGlobally c fo]) =
+      (runSeq src pre >>= fun rows =>
+        pure [c.toCombiner.finish (c.toCombiner.foldAdd c.toCombiner.create rows)]) := by
+  rw [runSeq_snoc_barrier src pre (.combineGlobally c fo) rfl (combineGlobalNode c.toCombiner fo)
+    (if c.globalNeedsConv then [st (mapOp id)] else []) (by simp only [Step.apply]; rfl)
+    (by intro ops h; cases h) (by intro lp lg m h; cases h)
+    (by intro l m lp lg mm r h; have := (List.cons.inj h).1; cases this)
+    (optimise_conv_tail _)]
+  congr 1
+  funext rows
+  rw [seqFold_conv_tail]
+  exact cg_seq_value c.toCombiner fo rows
+
+/-- … and in parallel mode, for every partition count, when the program is covered -/
+theorem program_combineGlobally_value_par (src : List Val) (pre : List Step) (c : Comb) (fo : Option Nat)
+    (h : stepsSupported (pre ++ [.combineGlobally c fo]) = true) (n : Nat) :
+    runPar src (pre ++ [.combineGlobally c fo]) n =
+      (runSeq src pre >>= fun rows =>
+        pure [c.toCombiner.finish (c.toCombiner.foldAdd c.toCombiner.create rows)]) := by
+  rw [C01_program src _ h n, program_combineGlobally_value]
+
+/-- C05 (global, lifted entry point): the same single row, for the combiners proved lawful -/
+theorem program_combineGloballyLifted_value (src : List Val) (pre : List Step) (c : Comb) (fo : Option Nat)
+    (hc : c.supported = true) :
+    runSeq src (pre ++ [.combineGloballyLifted c fo]) =
+      (runSeq src pre >>= fun rows =>
+        pure [c.toCombiner.finish (c.toCombiner.foldAdd c.toCombiner.create rows)]) := by
+  rw [runSeq_snoc_barrier src pre (.combineGloballyLifted c fo) rfl (combineGlobalLiftedNode c.toCombiner fo)
+    (if c.globalNeedsConv then [st (mapOp id)] else []) (by simp only [Step.apply]; rfl)
+    (by intro ops h; cases h) (by intro lp lg m h; cases h)
+    (by intro l m lp lg mm r h; have := (List.cons.inj h).1; cases this)
+    (optimise_conv_tail _)]
+  congr 1
+  funext rows
+  rw [seqFold_conv_tail]
+  exact cg_lifted_seq_value (Comb.lawful c hc) fo rows
+
+/-- C05 (per key): `pre ; combine_values(c)` returns what the combine's closures return on the rows of
+    `pre` — for every program and every combiner -/
+theorem program_combineValues_value (src : List Val) (pre : List Step) (c : Comb) :
+    runSeq src (pre ++ [.combineValues c]) =
+      (runSeq src pre >>= fun rows =>
+        pure (combineMerge c.toCombiner [combineLocalPairs c.toCombiner rows])) := by
+  rw [runSeq_snoc_barrier src pre (.combineValues c) rfl (combineValuesNode c.toCombiner)
+    (if c.perKeyNeedsConv then [st (mapOp id)] else []) (by simp only [Step.apply]; rfl)
+    (by intro ops h; cases h) (by intro lp lg m h; cases h)
+    (by intro l m lp lg mm r h; have := (List.cons.inj h).1; cases this)
+    (optimise_conv_tail _)]
+  congr 1
+  funext rows
+  rw [seqFold_conv_tail]
+  rfl
+
+/-- … hence (C05 `cv_keys_nodup`, `cv_seq_value`): exactly one output row per distinct key of `pre`'s rows,
+    holding `finish (foldAdd create [v | (k, v) ∈ rows])` — sequentially, and in parallel for EVERY partition
+    count when the program is covered -/
+theorem program_combineValues_spec (src : List Val) (pre : List Step) (c : Comb) (rows : List Val)
+    (hc : c.supported = true) (hpre : runSeq src pre = .ok rows) :
+    ∃ out, runSeq src (pre ++ [.combineValues c]) = .ok out ∧
+      (stepsSupported (pre ++ [.combineValues c]) = true →
+        ∀ n, runPar src (pre ++ [.combineValues c]) n = .ok out) ∧
+      (out.map Val.key).Nodup ∧
+      ∀ k, lookupKV (decAccs out) k =
+        if k ∈ rows.map Val.key
+        then Option.some (c.toCombiner.finish (c.toCombiner.foldAdd c.toCombiner.create
+          ((rows.filter (fun r => r.key == k)).map Val.value)))
+        else Option.none := by
+  have hseq : runSeq src (pre ++ [.combineValues c])
+      = .ok (combineMerge c.toCombiner [combineLocalPairs c.toCombiner rows]) := by
+    rw [program_combineValues_value, hpre]; rfl
+  refine ⟨_, hseq, fun hs n => by rw [C01_program src _ hs n, hseq], cv_keys_nodup _ _, ?_⟩
+  intro k
+  exact cv_seq_value (Comb.lawful c hc) rows k
+
+/-- C04: `pre ; group_by_key` returns the grouping closures' result on the rows of `pre` — for every program;
+    `gbk_seq_keys_nodup / _keys_exact / _values / _flatten_perm` (Props/C04) describe it -/
+theorem program_gbk_value (src : List Val) (pre : List Step) :
+    runSeq src (pre ++ [.gbk]) = (runSeq src pre >>= fun rows => pure (gbkMerge [gbkLocal rows])) := by
+  rw [runSeq_snoc_barrier src pre .gbk rfl gbkNode [] (by simp only [Step.apply]; rfl)
+    (by intro ops h; cases h) (by intro lp lg m h; cases h)
+    (by intro l m lp lg mm r h; have := (List.cons.inj h).2; cases this) rfl]
+  congr 1
+
+/-- … in parallel mode for every partition count, when the program is covered -/
+theorem program_gbk_value_par (src : List Val) (pre : List Step)
+    (h : stepsSupported (pre ++ [.gbk]) = true) (n : Nat) :
+    runPar src (pre ++ [.gbk]) n = (runSeq src pre >>= fun rows => pure (gbkMerge [gbkLocal rows])) := by
+  rw [C01_program src _ h n, program_gbk_value]
+
+/-- witnesses: the corpus programs `[combine_globally sum (some 0)]` on `1..4` and
+    `[values, combine_globally sum (some 2)]`, through the theorems above (every partition count) -/
+example (n : Nat) :
+    runPar [.int 1, .int 2, .int 3, .int 4] ([] ++ [.combineGlobally .sum (some 0)]) n = .ok [.int 10] := by
+  rw [program_combineGlobally_value_par _ _ _ _ (by decide)]; rfl
+example (n : Nat) :
+    runPar [.pair (.int 1) (.int 5), .pair (.int 2) (.int 6)] ([.values] ++ [.combineGlobally .sum (some 2)]) n
+      = .ok [.int 11] := by
+  rw [program_combineGlobally_value_par _ _ _ _ (by decide)]; rfl
+
+/-- the hypotheses of `program_combineValues_spec` / `program_combineGloballyLifted_value` are met by a
+    concrete program: `key_by(x % 2) ; combine_values(sum)` on `[1,2,3]` gives key 1 ↦ 4 in both modes -/
+example : ∃ out,
+    runSeq [.int 1, .int 2, .int 3] ([.keyBy (.kmod 2)] ++ [.combineValues .sum]) = .ok out ∧
+    (∀ n, runPar [.int 1, .int 2, .int 3] ([.keyBy (.kmod 2)] ++ [.combineValues .sum]) n = .ok out) ∧
+    lookupKV (decAccs out) (.int 1) = Option.some (.int 4) := by
+  obtain ⟨out, h1, h2, _, h4⟩ := program_combineValues_spec [.int 1, .int 2, .int 3] [.keyBy (.kmod 2)] .sum
+    [.pair (.int 1) (.int 1), .pair (.int 0) (.int 2), .pair (.int 1) (.int 3)] rfl rfl
+  exact ⟨out, h1, h2 (by decide), by rw [h4]; decide⟩
+example : Comb.maxT.supported = true ∧ Comb.distinctSet.supported = true := ⟨rfl, rfl⟩
 
 end IB
